@@ -89,6 +89,13 @@ def number? (tok : Bytes) : Option Nat :=
 def leadNumber (arg : Bytes) : Option Nat × Bytes :=
   (number? (arg.takeWhile isDigit), arg.dropWhile isDigit)
 
+/-- **a message-number argument**: a non-empty digit run that ends the argument or is followed by a
+space (TOP's second argument comes after it). "1x", "2abc", "x", "" are not message numbers. -/
+def msgArg (arg : Bytes) : Option Nat :=
+  match arg.dropWhile isDigit with
+  | [] => number? (arg.takeWhile isDigit)
+  | c :: _ => if c = SP then number? (arg.takeWhile isDigit) else none
+
 def words (b : Bytes) : List Bytes := (b.splitOn SP).filter (· ≠ [])
 
 def lowerAscii (b : Bytes) : Bytes := b.map (fun c => if 65 ≤ c ∧ c ≤ 90 then c + 32 else c)
@@ -111,9 +118,15 @@ def RSt.num (s : RSt) (arg : Bytes) : Option Nat :=
   | some v => some (if s.modulus = 0 then v else v % s.modulus)
   | none => none
 
-/-- a valid message number: 1..count, not marked -/
+/-- the message number an argument names (`modulus` as in `num`) -/
+def RSt.msgNum (s : RSt) (arg : Bytes) : Option Nat :=
+  match msgArg arg with
+  | some v => some (if s.modulus = 0 then v else v % s.modulus)
+  | none => none
+
+/-- a valid message number: a message-number argument, 1..count, not marked -/
 def RSt.valid (s : RSt) (arg : Bytes) : Option Nat :=
-  match s.num arg with
+  match s.msgNum arg with
   | some v => if 1 ≤ v ∧ v ≤ s.msgs.length ∧ !s.marked.contains (v - 1) then some (v - 1) else none
   | none => none
 
@@ -165,11 +178,15 @@ def refStep (s : RSt) (verb arg : Bytes) : RSt × Expect :=
         if s.gone.contains m.path then (s, .err)
         else
           let ls := lines m.data
-          -- the optional second number: how many body lines are wanted
-          let after := ((leadNumber arg).2).dropWhile (· = SP)
-          match s.num after with
-          | some k => (s, .multi (topLines k ls ++ [[]]))
-          | none => if verb = [116, 111, 112] then (s, .multiOrErr (ls ++ [[]])) else (s, .multi (ls ++ [[]]))
+          if verb = [114, 101, 116, 114] then
+            -- RETR: the whole message, whatever follows the message number
+            (s, .multi (ls ++ [[]]))
+          else
+            -- TOP: the optional second number says how many body lines are wanted
+            let after := ((leadNumber arg).2).dropWhile (· = SP)
+            match s.num after with
+            | some k => (s, .multi (topLines k ls ++ [[]]))
+            | none => (s, .multiOrErr (ls ++ [[]]))
   else (s, .err)
 
 /-- does the reply stream begin with a reply of the expected shape? returns the rest -/
@@ -221,7 +238,8 @@ def matchQuit (strict : Bool) (w : Bytes) : Bool :=
 
 /-- the maildir a finished session must leave behind, as (path, data), unordered:
 `quit = false` (connection dropped): nothing changes. `quit = true`: marked messages are gone,
-unmarked messages found in new/ are in cur/ with ":2," appended, everything else is untouched. -/
+unmarked messages found in new/ are in cur/ with ":2," appended, everything else is untouched.
+(Where a new name collides with an existing file the result is not compared: `collisions`.) -/
 def expectFs (s : RSt) (quit : Bool) (fs : List RMsg) : List RMsg :=
   if !quit then fs
   else
@@ -231,6 +249,16 @@ def expectFs (s : RSt) (quit : Bool) (fs : List RMsg) : List RMsg :=
     let targets := keepNew.map (fun p => [99, 117, 114, 47] ++ p.drop 4 ++ [58, 50, 44])
     ((fs.filter (fun f => !markedPaths.contains f.path)).filter (fun f => keepNew.contains f.path || !targets.contains f.path)).map
       (fun f => if keepNew.contains f.path then { f with path := [99, 117, 114, 47] ++ f.path.drop 4 ++ [58, 50, 44] } else f)
+
+/-- **Names for which the outcome of QUIT is left open.** maildir(5) makes the part of a file name before
+":2," unique. If nevertheless an unmarked message `new/x` is to be renamed while a file `cur/x:2,` exists,
+rename(2) replaces that file; the reference neither demands nor forbids this: both names are taken out of
+the comparison of the final maildir. (On maildirs that respect maildir(5) this list is empty.) -/
+def collisions (s : RSt) (fs : List RMsg) : List Bytes :=
+  let keepNew := (s.msgs.zipIdx.filter (fun (m, i) => !s.marked.contains i && m.path.take 4 == [110, 101, 119, 47]
+                    && fs.any (fun f => f.path == m.path))).map (fun (m, _) => m.path)
+  (keepNew.filter (fun p => fs.any (fun f => f.path == [99, 117, 114, 47] ++ p.drop 4 ++ [58, 50, 44]))).flatMap
+    (fun p => [p, [99, 117, 114, 47] ++ p.drop 4 ++ [58, 50, 44]])
 
 /-- a session event as the reference sees it -/
 inductive REv
@@ -268,7 +296,9 @@ def sessionOk (numbering : List RMsg) (fs0 : List RMsg) (evs : List REv) (out : 
     | none => false
     | some (s, quit) =>
       let gone := fs0.filter (fun f => !s.gone.contains f.path)
-      sortFs (expectFs s quit gone) == sortFs fsEnd
+      let open_ := if quit then collisions s gone else []
+      sortFs ((expectFs s quit gone).filter (fun f => !open_.contains f.path)) ==
+        sortFs (fsEnd.filter (fun f => !open_.contains f.path))
 
 /-- all orderings of `l` that are sorted by `key` (ties in every order) -/
 def insertAll (x : α) : List α → List (List α)
